@@ -63,3 +63,6 @@ def run(ctx):
     # (the liveness scenarios of C04's multi-session harness)
     import props.C04 as c04
     c04.run(ctx, name="C02-multi")
+    # the session is lost while a call is between its state check and the fetch of the transport (gate-held, real sockets)
+    import props.C09 as c09
+    c09.run(ctx, test="^TestVerifLostWhilePreparing$", name="C02-lost")
